@@ -1,7 +1,8 @@
-use rusty_parser::ForLoop;
+use rusty_common::AtPos;
+use rusty_parser::{ForLoop, HasExpressionType, TypeQualifier};
 
 use crate::converter::common::{Convertible, ConvertibleIn, ExprContext};
-use crate::core::{LintErrorPos, LinterContext};
+use crate::core::{CanCastTo, LintError, LintErrorPos, LinterContext};
 
 impl Convertible for ForLoop {
     fn convert(self, ctx: &mut LinterContext) -> Result<Self, LintErrorPos> {
@@ -11,6 +12,19 @@ impl Convertible for ForLoop {
         let lower_bound = self.lower_bound.convert_in_default(ctx)?;
         let upper_bound = self.upper_bound.convert_in_default(ctx)?;
         let step = self.step.convert_in_default(ctx)?;
+        // the bounds and the step will be compared with and added to the counter
+        // (a counter that is not numeric is reported later, at the counter)
+        let counter_type = variable_name.expression_type();
+        if counter_type.can_cast_to(&TypeQualifier::PercentInteger) {
+            for bound in [Some(&lower_bound), Some(&upper_bound), step.as_ref()]
+                .into_iter()
+                .flatten()
+            {
+                if !bound.expression_type().can_cast_to(&counter_type) {
+                    return Err(LintError::TypeMismatch.at(bound));
+                }
+            }
+        }
         let statements = self.statements.convert(ctx)?;
         let next_counter = self.next_counter.convert_in(ctx, ExprContext::Assignment)?;
         Ok(Self {
